@@ -21,6 +21,15 @@ CLAIMED.update({
          "Trusts: the atomics shim and hook H1 represent every synchronisation point of the registration/dispatch paths; sequential consistency only; <=3 threads.", "DESIGN.md 5 C04"),
 })
 
+CLAIMED.update({
+ "C05": ("registry-sim", "deterministic simulation: seeded histories and seeded schedules (preemption at every registry ref-count operation via hook H2 and at every tracing-core atomic/lock) over a span forest on the real Registry + Layered; registry reference model (handles + entered + open children) as oracle",
+         "Seeded exploration of create/clone/drop/raw enter/exit (any order, handle dropped while entered, parents dropped before children)/Span::current over span forests on 1-3 threads, home default installed as scope or as global default; on_close must be reported by both layers exactly once, exactly in the operation that released the last reference (op granularity) or never before every handle drop / exit / child close was at least invoked (sync granularity), children first, data readable inside on_close, gone afterwards, no stale data after slot reuse, no duplicate live ids. Operations under a foreign default are the separate F2 finding-probe configuration. Sampling, not proof.",
+         "Trusts: the registry model (A4) in sim/tsim/src/registry_sim.rs; sharded-slab internals run real code but are scheduled as atomic steps; sequential consistency.", "DESIGN.md 5 C05"),
+ "C06": ("registry-sim", "deterministic simulation: seeded multi-thread histories (total order of operations) over the real Registry, Context lookups inside layer callbacks and tracing-error SpanTrace; per-thread stack reference model as oracle",
+         "Seeded exploration of enter/exit sequences (out-of-order exits, one span entered on several threads), span/event creation with contextual/explicit/root parents, Span::current and SpanTrace capture/walk while ancestors' handles are dropped; every lookup_current/current_span/stored parent/event_span/scope()/from_root()/SpanTrace walk is compared with the model. Re-entry of an already-entered span on the same thread is not generated (excluded by the property). Sampling, not proof.",
+         "Trusts: the per-thread stack model (A4); histories are total orders (no intra-operation preemption for this property).", "DESIGN.md 5 C06"),
+})
+
 NOT_BUILT = {
 }
 
